@@ -22,6 +22,7 @@ SCENARIOS = {
     "AB": dict(sources=["A", "B"], deps=dict(A=["B"], B=[]), temps=["A"], failing=[], tla=("Src_AB", "Deps_AB", "Temp_AB", "Fail_None")),
     "ERR": dict(sources=["A", "B"], deps=dict(A=["B"], B=[]), temps=["A"], failing=["A"], tla=("Src_AB", "Deps_AB", "Temp_AB", "Fail_A")),
     "IND": dict(sources=["A", "B"], deps=dict(A=[], B=[]), temps=["A", "B"], failing=[], tla=("Src_AB", "Deps_IND", "Temp_IND", "Fail_None")),
+    "TRB": dict(sources=["A", "B"], deps=dict(A=["B"], B=[]), temps=["A"], failing=[], readback=["A"], tla=("Src_AB", "Deps_AB", "Temp_AB", "Fail_None")),
     "EMP": dict(sources=["A", "B"], deps=dict(A=["B"], B=[]), temps=["B"], failing=[], empty=["B"], tla=("Src_AB", "Deps_AB", "Temp_B", "Fail_None")),
     "ABC": dict(sources=["A", "B", "C"], deps=dict(A=["B"], B=["C"], C=[]), temps=["A", "C"], failing=[], tla=("Src_ABC", "Deps_ABC", "Temp_ABC", "Fail_None")),
 }
@@ -76,6 +77,9 @@ class Project:
         lines = [f"{s}-head v{v} é"]
         if s in self.scen["temps"]:
             lines += [f"// TXTPP#temp {self.lay['temp'][s]}", f"// body of {s} v{v}", "// ü second"]
+            if s in self.scen.get("readback", []):
+                # the source reads its own temp file back: its output depends on the temp file being regenerated first
+                lines += [f"TXTPP#include {self.lay['temp'][s]}", "", f"-TXTPP#run cat {self.lay['temp'][s]}", ""]
         if self.big and s == "B":
             lines += [f"filler {i} " + "z" * 40 for i in range(260)]
         for d in self.scen["deps"][s]:
@@ -90,6 +94,11 @@ class Project:
         files = [dict(path="p/" + self.src_path(s), text=self.source_text(s, ver[s])) for s in self.scen["sources"]]
         for d in DECOYS:
             files.append(dict(path="p/" + d, text=f"decoy {d}\n"))
+        # decoys at the names a careless implementation might use for staging / backup copies of an output
+        for s in self.scen["sources"]:
+            o = self.out_path(s)
+            for suffix in (".tmp", "~", ".bak", ".new"):
+                files.append(dict(path="p/" + o + suffix, text=f"decoy next to {o}\n"))
         return files
 
     def inputs_for(self, inputs, how):
@@ -480,7 +489,7 @@ def check(prop):
     rng = random.Random(seed())
     quick = tier() == "quick"
     acts = dict(C06=["verify"], C07=["clean"], C08=["build"], C09=["needed", "build", "verify"], C10=["build", "needed", "verify", "clean"])[prop]
-    plan = [("AB", "flat", False), ("AB", "nested", False), ("ERR", "flat", False), ("IND", "shapes", False), ("EMP", "flat", False)]
+    plan = [("AB", "flat", False), ("AB", "nested", False), ("ERR", "flat", False), ("IND", "shapes", False), ("EMP", "flat", False), ("TRB", "flat", False)]
     if not quick:
         plan += [("ABC", "nested", False), ("AB", "flat", True), ("ERR", "nested", False), ("AB", "shapes", False), ("ABC", "flat", False)]
     states = trans = 0
